@@ -156,6 +156,7 @@ func (w *World) verifyFunction(fn *ssa.Function, ct *Contract, tag string, safeA
 				continue
 			}
 			ctx := fr.specCtx(r.st, fr.old, nil, nil, 0)
+			ctx.retBlk, ctx.retIdx = r.blk, r.pos
 			ctx.results = r.results
 			ctx.rtypes = rts
 			ctx.rnames = rnames
